@@ -472,6 +472,16 @@ func replayMain(p *Property) int {
 		fmt.Printf("NOT REPRODUCED: property=%s clause=%s no longer fails on this tree\n", rf.Property, rf.Clause)
 		return 0
 	}
+	if rf.Cfg.Prop == "C11U" {
+		_, cw := c12Types[int(rf.Seed%uint64(len(c12Types)))].run(rf.Seed, *fTier)
+		clause, msg := c11uCheck(cw)
+		if clause == "" {
+			fmt.Printf("NOT REPRODUCED: property=%s clause=%s no longer fails on this tree\n", rf.Property, rf.Clause)
+			return 0
+		}
+		fmt.Printf("REPRODUCED clause=%s: %s\nVIOLATION property=%s replay=%s\n", clause, msg, rf.Property, *fReplay)
+		return 1
+	}
 	if rf.Cfg.Prop == "C17Q" {
 		res := layerQ(rf.Seed, *fTier, true)
 		clause, msg := c17qCheck(res)
